@@ -123,6 +123,31 @@ CLAIMS = {
              "two known findings (-0 integer literal loses its sign; float32 is rounded twice) matched by computed deviation signatures",
         engine="num",
     ),
+    "C14": dict(
+        category="model_checking",
+        technique="TLA+ specification of path lookup (first duplicate, two flavours), views and Preorder events over the plain tree (Search / "
+                  "AstTree), laws checked by TLC; every (document, path) pair replayed through all search entry points and option sets and "
+                  "through Node routes, all views compared; token-streaming encoding/json lookup as second oracle",
+        text="TLC enumerates every (document, path) of the bounded universe with the required result and views; the harness runs sonic.Get, "
+             "GetFromString, GetCopyFromString, GetWithOptions x 8 option sets, Searcher and Node.GetByPath / stepwise Index/Get from raw, "
+             "concurrent-read and loaded roots, under blank / escaped-key / scaled-string text plans, and compares every view; Preorder "
+             "events are compared for every document.",
+        design_ref="DESIGN.md section 4 C14, section 11",
+        note="finite document set and path alphabet; negative indexes only on Node routes; Raw compared as a token sequence",
+        engine="search",
+    ),
+    "C13": dict(
+        category="exploration",
+        technique="the four spec-generated byte-level universes (GenLex, GenStr, GenNum, GenSearch - TLC enumerated, with the alignment/length "
+                  "concretisation) replayed under SONIC_MODE unset and noavx2 with identical seeds; per-case digests over every observation "
+                  "must be equal",
+        text="Cross-environment replay of TLC-enumerated inputs: every case of the lexical, string, number and search universes is executed "
+             "with the AVX2 and with the SSE routines and everything observable is compared through a per-case digest.",
+        design_ref="DESIGN.md section 4 C13, section 5, section 11",
+        note="equality of two black boxes on spec-enumerated inputs (the definition both must meet is checked by C02/C14/C19/C20); native "
+             "routines not reached by these universes are not compared; needs an AVX2 host",
+        engine="lex,str,num,search",
+    ),
 }
 
 NOT_YET = "not yet claimed: check under construction (build phase), see DESIGN.md section 8"
